@@ -306,8 +306,11 @@ def step (_ : Unit) (ws : List String) : Unit × String × String × String :=
         if tot == rows.length then "partition"
         else if tot < rows.length then s!"lost:{rows.length - tot}" else s!"dup:{tot - rows.length}"
       | _, _, _ => "err"
-    let spec := if cs.any (fun ch => ch == 'O' || ch == 'E') then "err" else "partition"
-    ((), s!"{obs} | base={rows.length} t={showCount a} f={showCount b} n={showCount c}", spec, "")
+    -- `stale` = the harness found a different number of base rows than classes (setup lines missing)
+    let spec := if cs.any (fun ch => ch == 'O' || ch == 'E') then "err/stale" else "partition/stale"
+    let detail := if obs == "err" then s!"base={rows.length}"
+      else s!"base={rows.length} t={showCount a} f={showCount b} n={showCount c}"
+    ((), s!"{obs} | {detail}", spec, "")
   | _ => ((), "bad-op", "-", "")
 
 def stream : Stream := { σ := Unit, init := (), step := step }
